@@ -559,7 +559,7 @@ func runR072(c *core.Ctx) {
 	ast.Inspect(em.Body, func(n ast.Node) bool {
 		switch x := n.(type) {
 		case *ast.CallExpr:
-			if cf := core.Callee(inf, x); cf != nil && cf.Name() == "genericMatches" {
+			if cf := core.Callee(inf, x); cf != nil && core.NameOf(cf) == "genericMatches" {
 				if core.GuardedByFact(inf, empar, core.EnclosingStmt(empar, x), longer, nil) {
 					ignoreGuard = true
 				}
@@ -658,7 +658,7 @@ func runR074(c *core.Ctx) {
 			if cf == nil || cf.Pkg() == nil || cf.Pkg().Path() != pkgPath(c, "restlicodec") {
 				return true
 			}
-			if cf.Name() != "WriteArray" && cf.Name() != "WriteGenericMap" && cf.Name() != "WriteMap" {
+			if core.NameOf(cf) != "WriteArray" && core.NameOf(cf) != "WriteGenericMap" && core.NameOf(cf) != "WriteMap" {
 				return true
 			}
 			if sig := cf.Type().(*types.Signature); sig.Recv() != nil {
@@ -675,7 +675,7 @@ func runR074(c *core.Ctx) {
 			reset := false
 			ast.Inspect(fl.Body, func(x ast.Node) bool {
 				if sc, ok := x.(*ast.CallExpr); ok {
-					if sf := core.Callee(inf, sc); sf != nil && sf.Name() == "SetScope" && len(sc.Args) == 0 {
+					if sf := core.Callee(inf, sc); sf != nil && core.NameOf(sf) == "SetScope" && len(sc.Args) == 0 {
 						reset = true
 					}
 				}
@@ -734,7 +734,7 @@ func runR071root(c *core.Ctx) {
 				return false
 			}
 			cf := core.Callee(inf, call)
-			return cf != nil && cf.Name() == "IsKeyExcluded" && len(call.Args) == 1 && core.ObjOf(inf, call.Args[0]) == key
+			return cf != nil && core.NameOf(cf) == "IsKeyExcluded" && len(call.Args) == 1 && core.ObjOf(inf, call.Args[0]) == key
 		}, nil)
 		if !g {
 			okAll = false
@@ -746,7 +746,7 @@ func runR071root(c *core.Ctx) {
 	pushWild := false
 	ast.Inspect(wa.Body, func(x ast.Node) bool {
 		if call, ok := x.(*ast.CallExpr); ok {
-			if cf := core.Callee(inf, call); cf != nil && cf.Name() == "subWriter" && len(call.Args) == 1 && core.ObjOf(inf, call.Args[0]) == wild {
+			if cf := core.Callee(inf, call); cf != nil && core.NameOf(cf) == "subWriter" && len(call.Args) == 1 && core.ObjOf(inf, call.Args[0]) == wild {
 				pushWild = true
 			}
 		}
@@ -769,7 +769,7 @@ func runR071root(c *core.Ctx) {
 				}
 			}
 		case *ast.CallExpr:
-			if cf := core.Callee(inf, y); cf != nil && cf.Name() == "Matches" {
+			if cf := core.Callee(inf, y); cf != nil && core.NameOf(cf) == "Matches" {
 				match = y.Pos()
 			}
 		}
